@@ -278,9 +278,37 @@ def _profile_funcs(fn, *a):
     return r, seen
 
 
+class _CaseTimeout(Exception):
+    pass
+
+
+def _case_alarm(*a):
+    raise _CaseTimeout()
+
+
 def _worker(arg):
     idx, case, profile = arg
     t0 = time.time()
+    import signal
+    limit = int(os.environ.get('VERIF_CASE_TIMEOUT_S', '3600' if _TIER == 'quick' else '14400'))
+    try:
+        signal.signal(signal.SIGALRM, _case_alarm)
+        signal.alarm(limit)
+    except Exception:
+        pass
+    try:
+        return _worker_body(idx, case, profile, t0)
+    except _CaseTimeout:
+        return {'case': case, 'error': 'case did not finish within %d s (the code under test or the harness does not terminate)' % limit,
+                'tb': '', 'wall_s': time.time() - t0}
+    finally:
+        try:
+            signal.alarm(0)
+        except Exception:
+            pass
+
+
+def _worker_body(idx, case, profile, t0):
     try:
         import pyrtl
         pyrtl.reset_working_block()
